@@ -71,6 +71,19 @@ fn support(spec: &crate::stack::Spec, f: TField) -> Option<bool> {
     }
 }
 
+/// which setters the layer that RECEIVES them implements (an overlay hands them to its first layer)
+pub fn receiver_support(spec: &crate::stack::Spec, f: TField) -> Option<bool> {
+    use crate::stack::Spec;
+    match spec {
+        Spec::Mem { .. } => Some(true),
+        Spec::Phys { .. } => Some(f != TField::Created),
+        Spec::Emb => Some(false),
+        Spec::Alt { inner, .. } => receiver_support(inner, f),
+        Spec::Ovl { layers } => receiver_support(&layers[0], f),
+        Spec::OvlSub { base, .. } => receiver_support(base, f),
+    }
+}
+
 pub fn run_c19(cfg: &RunCfg, trace: bool) -> RunOut {
     let mut cx = match SeqCtx::new(cfg, trace) {
         Ok(c) => c,
